@@ -258,7 +258,7 @@ func TestC08(t *testing.T) {
 					rw := &recWriter{}
 					fw := &frame.Writer{ByteWriter: rw}
 					_ = fw.Initialize()
-					if err := fw.Write(fr); err != nil {
+					if err := c08forward(fw, fr); err != nil {
 						rep.Violation(fmt.Sprintf("msg=raw ver=%d enc=raw what=bytes", s.Version), "writer refused to forward: "+err.Error(), vh.Hex(w))
 						return
 					}
@@ -301,7 +301,7 @@ func TestC08(t *testing.T) {
 			_ = fw.Initialize()
 			for i, fr := range held {
 				rw.reset()
-				_ = fw.Write(fr)
+				_ = c08forward(fw, fr)
 				rep.Eval(1)
 				rep.Count("drained_then_forwarded", 1)
 				if !bytes.Equal(rw.all(), specs[i]) {
@@ -401,7 +401,7 @@ func TestC08(t *testing.T) {
 							rw := &recWriter{}
 							fw := &frame.Writer{ByteWriter: rw, DialectRW: genv.drw}
 							_ = fw.Initialize()
-							if err := fw.Write(fr); err != nil {
+							if err := c08forward(fw, fr); err != nil {
 								rep.Violation(fmt.Sprintf("msg=%s ver=%d enc=%s what=bytes", mi.Name, version, enc.class), "writer refused to forward: "+err.Error(), vh.Hex(w))
 								return
 							}
@@ -413,7 +413,7 @@ func TestC08(t *testing.T) {
 								rw2 := &recWriter{}
 								fw2 := &frame.Writer{ByteWriter: rw2, DialectRW: genv.drw}
 								_ = fw2.Initialize()
-								if err := fw2.Write(fr); err != nil {
+								if err := c08forward(fw2, fr); err != nil {
 									rep.Violation(fmt.Sprintf("msg=%s ver=%d enc=%s what=bytes", mi.Name, version, enc.class), "a second writer refused the frame the first one had taken: "+err.Error(), vh.Hex(w))
 									return
 								}
@@ -663,4 +663,16 @@ func TestC08(t *testing.T) {
 	rep.Floor("dialect_encodings_tail", 50)
 	rep.Floor("node_router_dialect_frames", 200)
 	rep.Floor("fixframe_forwarded", 200)
+}
+
+var c08forwardCounter int
+
+// c08forward forwards through one of the two routing entry points of frame.Writer in turn: Write and the deprecated
+// WriteFrame (the same operation under its older name).
+func c08forward(fw *frame.Writer, fr frame.Frame) error {
+	c08forwardCounter++
+	if c08forwardCounter%2 == 0 {
+		return fw.WriteFrame(fr) //nolint:staticcheck
+	}
+	return fw.Write(fr)
 }
